@@ -1,3 +1,917 @@
 (* Lemmas and proofs about Model/Hard.v *)
 From Kava Require Import Base.Prelude Base.Dec Model.Hard.
 Local Open Scope Z_scope.
+
+(** ** the outcome monad *)
+Lemma bind_ok {A B} (r : res A) (f : A -> res B) b :
+  bind r f = Ok b tt -> exists a, r = Ok a tt /\ f a = Ok b tt.
+Proof. destruct r as [a []| |]; cbn; intros H; [eauto|discriminate|discriminate]. Qed.
+
+Lemma err_unless_ok b x : err_unless b = Ok x tt -> b = true.
+Proof. destruct b; cbn; [reflexivity|discriminate]. Qed.
+Lemma panic_unless_ok b x : panic_unless b = Ok x tt -> b = true.
+Proof. destruct b; cbn; [reflexivity|discriminate]. Qed.
+Lemma opt_err_ok {A} (o : option A) a : opt_err o = Ok a tt -> o = Some a.
+Proof. destruct o; cbn; intros H; [inversion H; reflexivity|discriminate]. Qed.
+Lemma ret_ok {A} (a b : A) : ret a = Ok b tt -> a = b.
+Proof. intros H; inversion H; reflexivity. Qed.
+
+Tactic Notation "inv_bind" hyp(H) "as" ident(a) ident(E) :=
+  apply bind_ok in H; destruct H as (a & E & H).
+Ltac inv_bind0 H :=
+  let a := fresh "x" in let E := fresh "E" in
+  apply bind_ok in H; destruct H as (a & E & H).
+
+(** ** coins: dependence on the modelled denom range only *)
+Definition ceq (n : nat) (a b : coins) : Prop := forall d, (d < n)%nat -> a d = b d.
+
+Lemma denoms_ext n a b : ceq n a b -> denoms n a = denoms n b.
+Proof.
+  intros H. unfold denoms. apply filter_ext_in. intros d Hd. apply in_seq in Hd.
+  rewrite H by lia. reflexivity.
+Qed.
+
+Lemma denoms_lt n c d : In d (denoms n c) -> (d < n)%nat /\ c d <> 0.
+Proof.
+  unfold denoms. rewrite filter_In, in_seq. intros [H1 H2].
+  split; [lia|]. destruct (Z.eqb_spec (c d) 0); [discriminate|assumption].
+Qed.
+
+Lemma denoms_in n c d : (d < n)%nat -> c d <> 0 -> In d (denoms n c).
+Proof.
+  intros H1 H2. unfold denoms. rewrite filter_In, in_seq. split; [lia|].
+  destruct (Z.eqb_spec (c d) 0); [contradiction|reflexivity].
+Qed.
+
+Lemma cempty_spec n c : cempty n c = true <-> ceq n c czero.
+Proof.
+  unfold cempty, ceq, czero. rewrite forallb_forall. split.
+  - intros H d Hd. specialize (H d). rewrite in_seq in H. apply Z.eqb_eq, H. lia.
+  - intros H d Hd. apply in_seq in Hd. apply Z.eqb_eq, H. lia.
+Qed.
+
+Lemma map_ext_denoms {B} n c (f g : nat -> B) :
+  (forall d, (d < n)%nat -> c d <> 0 -> f d = g d) -> map f (denoms n c) = map g (denoms n c).
+Proof. intros H. apply map_ext_in. intros d Hd. apply denoms_lt in Hd. apply H; tauto. Qed.
+
+Lemma forallb_ext' {A} (f g : A -> bool) l : (forall x, f x = g x) -> forallb f l = forallb g l.
+Proof. intros H. induction l as [|x l IH]; cbn; [reflexivity|]. rewrite H, IH. reflexivity. Qed.
+
+(** valuation depends on the state only through the prices, and on coins only inside the range *)
+Lemma mkt_price e s s' d : price s' = price s -> mkt e s' d = mkt e s d.
+Proof. intros H. unfold mkt. rewrite H. reflexivity. Qed.
+
+Lemma all_priced_ext e s s' c c' : price s' = price s -> ceq (nd e) c c' ->
+  all_priced e s' c' = all_priced e s c.
+Proof.
+  intros Hp Hc. unfold all_priced. rewrite <- (denoms_ext _ _ _ Hc).
+  apply forallb_ext'. intros d. rewrite (mkt_price _ _ _ _ Hp). reflexivity.
+Qed.
+
+Lemma value_of_ext e s s' c c' : price s' = price s -> ceq (nd e) c c' ->
+  value_of e s' c' = value_of e s c.
+Proof.
+  intros Hp Hc. unfold value_of, sum_over. rewrite <- (denoms_ext _ _ _ Hc). f_equal.
+  apply map_ext_denoms. intros d Hd _. unfold usd_d. rewrite (mkt_price _ _ _ _ Hp), (Hc d Hd). reflexivity.
+Qed.
+
+Lemma borrowable_of_ext e s s' c c' : price s' = price s -> ceq (nd e) c c' ->
+  borrowable_of e s' c' = borrowable_of e s c.
+Proof.
+  intros Hp Hc. unfold borrowable_of, sum_over. rewrite <- (denoms_ext _ _ _ Hc). f_equal.
+  apply map_ext_denoms. intros d Hd _. unfold usd_d. rewrite (mkt_price _ _ _ _ Hp), (Hc d Hd). reflexivity.
+Qed.
+
+Lemma within_ltv_ext e s s' dp dp' bw bw' :
+  price s' = price s -> ceq (nd e) dp dp' -> ceq (nd e) bw bw' ->
+  within_ltv e s' dp' bw' = within_ltv e s dp bw.
+Proof.
+  intros Hp Hd Hb. unfold within_ltv.
+  rewrite (all_priced_ext _ _ _ _ _ Hp Hd), (all_priced_ext _ _ _ _ _ Hp Hb),
+          (borrowable_of_ext _ _ _ _ _ Hp Hd), (value_of_ext _ _ _ _ _ Hp Hb). reflexivity.
+Qed.
+
+(* the coins of a stored record: an empty result deletes the record *)
+Lemma amt_of_store n (a : coins) ix :
+  ceq n (amt_of (if cempty n a then None else Some (mkU a ix))) a.
+Proof.
+  destruct (cempty n a) eqn:E; cbn [amt_of amt].
+  - apply cempty_spec in E. intros d Hd. symmetry. apply E, Hd.
+  - intros d _. reflexivity.
+Qed.
+
+(** ** frame properties of the interest sync *)
+Lemma sync_supply_frame e s u s' : sync_supply e s u = Ok s' tt ->
+  bal s' = bal s /\ price s' = price s /\ bor s' = bor s /\ sfac s' = sfac s /\ bfac s' = bfac s /\
+  prev s' = prev s /\ tsup s' = tsup s /\ tbor s' = tbor s /\ tres s' = tres s /\
+  (forall v, v <> u -> dep s' v = dep s v) /\
+  (dep s u = None -> dep s' u = None) /\ (dep s u <> None -> dep s' u <> None).
+Proof.
+  unfold sync_supply. destruct (dep s u) as [r|] eqn:E.
+  - intros H. inv_bind0 H. apply ret_ok in H. subst s'. cbn.
+    repeat split; try reflexivity.
+    + intros v Hv. unfold upd. destruct (Nat.eqb_spec v u); [contradiction|reflexivity].
+    + discriminate.
+    + intros _. unfold upd. rewrite Nat.eqb_refl. discriminate.
+  - intros H. apply ret_ok in H. subst s'. repeat split; try reflexivity; try tauto.
+Qed.
+
+Lemma sync_borrow_frame e s u s' : sync_borrow e s u = Ok s' tt ->
+  bal s' = bal s /\ price s' = price s /\ dep s' = dep s /\ sfac s' = sfac s /\ bfac s' = bfac s /\
+  prev s' = prev s /\ tsup s' = tsup s /\ tbor s' = tbor s /\ tres s' = tres s /\
+  (forall v, v <> u -> bor s' v = bor s v) /\
+  (bor s u = None -> bor s' u = None) /\ (bor s u <> None -> bor s' u <> None).
+Proof.
+  unfold sync_borrow. destruct (bor s u) as [r|] eqn:E.
+  - intros H. inv_bind0 H. apply ret_ok in H. subst s'. cbn.
+    repeat split; try reflexivity.
+    + intros v Hv. unfold upd. destruct (Nat.eqb_spec v u); [contradiction|reflexivity].
+    + discriminate.
+    + intros _. unfold upd. rewrite Nat.eqb_refl. discriminate.
+  - intros H. apply ret_ok in H. subst s'. repeat split; try reflexivity; try tauto.
+Qed.
+
+Lemma bsend_ok n s f t c s' : bsend n s f t c = Ok s' tt -> can_pay n s f c = true /\ s' = move s f t c.
+Proof. unfold bsend. destruct (can_pay n s f c); intros H; [apply ret_ok in H; auto|discriminate]. Qed.
+
+Lemma dec_supplied_ok e s c s' : dec_supplied e s c = Ok s' tt -> s' = set_tsup s (dec_clamp (tsup s) c).
+Proof. unfold dec_supplied. destruct (cempty _ _); intros H; [discriminate|apply ret_ok in H; auto]. Qed.
+Lemma dec_borrowed_ok e s c s' : dec_borrowed e s c = Ok s' tt -> s' = set_tbor s (dec_clamp (tbor s) c).
+Proof. unfold dec_borrowed. destruct (cempty _ _); intros H; [discriminate|apply ret_ok in H; auto]. Qed.
+
+(** ** withdraw: LTV gate and cap *)
+Definition sync_position (e : env) (s : state) (u : nat) : res state :=
+  s1 <- sync_borrow e s u ;; sync_supply e s1 u.
+
+Lemma withdraw_spec e s u c s' : withdraw e s u c = Ok s' tt ->
+  exists s2 r,
+    sync_position e s u = Ok s2 tt /\ dep s2 u = Some r /\
+    let moved := capped e c (amt r) in
+    within_ltv e s2 (csub (amt r) moved) (amt_of (bor s2 u)) = Some true /\
+    price s' = price s2 /\ bor s' = bor s2 /\
+    ceq (nd e) (amt_of (dep s' u)) (csub (amt r) moved) /\
+    (forall v, v <> u -> dep s' v = dep s v) /\ (forall v, v <> u -> bor s' v = bor s v) /\
+    can_pay (nd e) s2 (hacc e) moved = true /\
+    bal s' = bal (move s2 (hacc e) u moved) /\ bal s2 = bal s.
+Proof.
+  unfold withdraw. intros H.
+  inv_bind H as u1 G1. inv_bind H as u2 G2. inv_bind H as u3 G3. inv_bind H as s1 E2. inv_bind H as s2 E3.
+  destruct (dep s2 u) as [r|] eqn:Er; [|discriminate].
+  inv_bind H as u4 G4. inv_bind H as u5 G5. inv_bind H as w E6. inv_bind H as u6 E7. apply err_unless_ok in E7. subst w.
+  inv_bind H as s3 E8. inv_bind H as ix E9.
+  apply dec_supplied_ok in H. apply opt_err_ok in E6. apply bsend_ok in E8. destruct E8 as [Hpay ->].
+  destruct (sync_borrow_frame _ _ _ _ E2) as (B1 & B2 & B3 & _ & _ & _ & _ & _ & _ & B10 & _).
+  destruct (sync_supply_frame _ _ _ _ E3) as (S1 & S2 & S3 & _ & _ & _ & _ & _ & _ & S10 & _).
+  exists s2, r. split; [unfold sync_position; rewrite E2; cbn; exact E3|].
+  split; [exact Er|]. cbn zeta. subst s'. cbn.
+  repeat split; try assumption; try reflexivity.
+  - unfold upd. rewrite Nat.eqb_refl. apply amt_of_store.
+  - intros v Hv. unfold upd. destruct (Nat.eqb_spec v u); [contradiction|]. rewrite S10, B3 by assumption. reflexivity.
+  - intros v Hv. rewrite S3. apply B10, Hv.
+  - rewrite S1, B1. reflexivity.
+Qed.
+
+Lemma withdraw_gate e s u c s' : withdraw e s u c = Ok s' tt ->
+  within_ltv e s' (amt_of (dep s' u)) (amt_of (bor s' u)) = Some true.
+Proof.
+  intros H. apply withdraw_spec in H. destruct H as (s2 & r & _ & _ & H). cbn zeta in H.
+  destruct H as (W & Hp & Hb & Hd & _).
+  rewrite <- W. rewrite Hb. apply within_ltv_ext; [assumption| |intros d _; reflexivity].
+  intros d Hd'. symmetry. apply Hd, Hd'.
+Qed.
+
+(** ** folds in the outcome monad *)
+Lemma fold_not_ok {A B} (f : res A -> B -> res A) (g : A -> B -> res A) l acc :
+  (forall acc b, f acc b = bind acc (fun a => g a b)) ->
+  (forall a, acc <> Ok a tt) -> forall a, fold_left f l acc <> Ok a tt.
+Proof.
+  intros Hf. revert acc. induction l as [|b l IH]; intros acc Hacc a; cbn; [apply Hacc|].
+  apply IH. intros a2. rewrite Hf. destruct acc as [a3 []| |]; cbn; try discriminate.
+  exfalso. exact (Hacc a3 eq_refl).
+Qed.
+
+Lemma fold_bind_inv {A B} (P : A -> Prop) (f : res A -> B -> res A) (g : A -> B -> res A) l :
+  (forall acc b, f acc b = bind acc (fun a => g a b)) ->
+  (forall a b a2, P a -> g a b = Ok a2 tt -> P a2) ->
+  forall a0 a', fold_left f l (ret a0) = Ok a' tt -> P a0 -> P a'.
+Proof.
+  intros Hf Hg. induction l as [|b l IH]; intros a0 a' H P0; cbn in H.
+  - apply ret_ok in H. subst. exact P0.
+  - rewrite Hf in H. cbn [bind ret] in H.
+    destruct (g a0 b) as [a1 []| |] eqn:G.
+    + apply (IH a1 a'); [exact H|]. eapply Hg; eauto.
+    + exfalso. eapply (fold_not_ok f g l Err Hf); [discriminate|exact H].
+    + exfalso. eapply (fold_not_ok f g l Panic Hf); [discriminate|exact H].
+Qed.
+
+Lemma fold_bind_inv_in {A B} (P : A -> Prop) (f : res A -> B -> res A) (g : A -> B -> res A) l :
+  (forall acc b, f acc b = bind acc (fun a => g a b)) ->
+  (forall a b a2, In b l -> P a -> g a b = Ok a2 tt -> P a2) ->
+  forall a0 a', fold_left f l (ret a0) = Ok a' tt -> P a0 -> P a'.
+Proof.
+  intros Hf. induction l as [|b l IH]; intros Hg a0 a' H P0; cbn [fold_left] in H.
+  - apply ret_ok in H. subst. exact P0.
+  - rewrite Hf in H. cbn [bind ret] in H.
+    destruct (g a0 b) as [a1 []| |] eqn:G.
+    + apply (IH (fun a b0 a2 Hin => Hg a b0 a2 (or_intror Hin)) a1 a'); [exact H|].
+      eapply Hg; eauto. left; reflexivity.
+    + exfalso. eapply (fold_not_ok f g l Err Hf); [discriminate|exact H].
+    + exfalso. eapply (fold_not_ok f g l Panic Hf); [discriminate|exact H].
+Qed.
+
+(** ** liquidation *)
+(* what seizing may change: bank balances and the supplied/borrowed totals *)
+Definition same_store (s s' : state) : Prop :=
+  price s' = price s /\ dep s' = dep s /\ bor s' = bor s /\ sfac s' = sfac s /\ bfac s' = bfac s /\
+  prev s' = prev s /\ tres s' = tres s.
+
+Lemma same_store_refl s : same_store s s.
+Proof. repeat split. Qed.
+Lemma same_store_trans s1 s2 s3 : same_store s1 s2 -> same_store s2 s3 -> same_store s1 s3.
+Proof. unfold same_store. intros (A1&A2&A3&A4&A5&A6&A7) (B1&B2&B3&B4&B5&B6&B7). repeat split; congruence. Qed.
+
+Lemma bsend_store n s f t c s' : bsend n s f t c = Ok s' tt -> same_store s s'.
+Proof. intros H. apply bsend_ok in H. destruct H as [_ ->]. repeat split. Qed.
+Lemma dec_supplied_store e s c s' : dec_supplied e s c = Ok s' tt -> same_store s s'.
+Proof. intros H. apply dec_supplied_ok in H. subst. repeat split. Qed.
+Lemma dec_borrowed_store e s c s' : dec_borrowed e s c = Ok s' tt -> same_store s s'.
+Proof. intros H. apply dec_borrowed_ok in H. subst. repeat split. Qed.
+
+Lemma start_auction_store e a macc bk dk lot bid s' b' d' :
+  start_auction e a macc bk dk lot bid = Ok (s', b', d') tt -> same_store (a_s a) s'.
+Proof.
+  unfold start_auction. intros H.
+  inv_bind H as u1 G1. inv_bind H as u2 G2. inv_bind H as u3 G3.
+  inv_bind H as s1 E1. inv_bind H as s2 E2. inv_bind H as s3 E3. inv_bind H as u4 G4.
+  apply ret_ok in H. inversion H; subst.
+  eapply same_store_trans; [eapply bsend_store; eauto|].
+  eapply same_store_trans; [eapply dec_supplied_store; eauto|]. eapply dec_borrowed_store; eauto.
+Qed.
+
+Lemma dquo_ok a b x : dquo a b = Ok x tt -> b <> 0 /\ x = dec_quo a b.
+Proof. unfold dquo. destruct (Z.eqb_spec b 0); intros H; [discriminate|]. apply ret_ok in H. auto. Qed.
+
+Definition auction_body e ltv macc bk (a : astate) (dk : nat) : res astate :=
+  auction_step e ltv macc bk (ret a) dk.
+
+Lemma auction_step_bind e ltv macc bk acc dk :
+  auction_step e ltv macc bk acc dk = bind acc (fun a => auction_body e ltv macc bk a dk).
+Proof. destruct acc as [a []| |]; reflexivity. Qed.
+
+Lemma auction_body_store e ltv macc bk a dk a' :
+  auction_body e ltv macc bk a dk = Ok a' tt -> same_store (a_s a) (a_s a').
+Proof.
+  unfold auction_body, auction_step. cbn [bind ret]. intros H.
+  destruct (a_max a =? 0); [apply ret_ok in H; subst; apply same_store_refl|].
+  destruct (a_max a <=? a_dv a dk).
+  - inv_bind H as ls E1. destruct (dec_trunc_int ls =? 0); [apply ret_ok in H; subst; apply same_store_refl|].
+    inv_bind H as x E2. destruct x as [[s1 b1] d1]. apply ret_ok in H. subst a'. cbn.
+    eapply start_auction_store; eauto.
+  - inv_bind H as bs E1.
+    destruct ((dec_trunc_int bs =? 0) || (a_dep a dk =? 0)); [apply ret_ok in H; subst; apply same_store_refl|].
+    inv_bind H as x E2. destruct x as [[s1 b1] d1]. inv_bind H as m E3. apply ret_ok in H. subst a'. cbn.
+    eapply start_auction_store; eauto.
+Qed.
+
+Definition borrow_body e ltv macc dkeys (a : astate) (bk : nat) : res astate :=
+  borrow_step e ltv macc dkeys (ret a) bk.
+Lemma borrow_step_bind e ltv macc dkeys acc bk :
+  borrow_step e ltv macc dkeys acc bk = bind acc (fun a => borrow_body e ltv macc dkeys a bk).
+Proof. destruct acc as [a []| |]; reflexivity. Qed.
+
+Lemma borrow_body_store e ltv macc dkeys a bk a' :
+  borrow_body e ltv macc dkeys a bk = Ok a' tt -> same_store (a_s a) (a_s a').
+Proof.
+  unfold borrow_body, borrow_step. cbn [bind ret]. intros H. inv_bind H as m E1.
+  refine (fold_bind_inv (fun x => same_store (a_s a) (a_s x)) _ _ dkeys
+            (auction_step_bind e ltv macc bk) _ _ _ H _).
+  - intros a1 b a2 P G. eapply same_store_trans; [exact P|]. eapply auction_body_store; eauto.
+  - cbn. apply same_store_refl.
+Qed.
+
+Definition return_body e b deps (s : state) (dk : nat) : res state :=
+  return_step e b deps (ret s) dk.
+Lemma return_step_bind e b deps acc dk :
+  return_step e b deps acc dk = bind acc (fun s => return_body e b deps s dk).
+Proof. destruct acc as [a []| |]; reflexivity. Qed.
+Lemma return_body_store e b deps s dk s' : return_body e b deps s dk = Ok s' tt -> same_store s s'.
+Proof.
+  unfold return_body, return_step. cbn [bind ret]. destruct (0 <? deps dk); intros H.
+  - eapply bsend_store; eauto.
+  - apply ret_ok in H. subst. apply same_store_refl.
+Qed.
+
+Lemma start_auctions_store e s b bw aucdep dvals bvals ltv s' :
+  start_auctions e s b bw aucdep dvals bvals ltv = Ok s' tt -> same_store s s'.
+Proof.
+  unfold start_auctions. intros H. inv_bind H as a E1.
+  assert (A : same_store s (a_s a)).
+  { refine (fold_bind_inv (fun x => same_store s (a_s x)) _ _ _ (borrow_step_bind e ltv (bal s (hacc e)) _) _ _ _ E1 _).
+    - intros a1 bk a2 P G. eapply same_store_trans; [exact P|]. eapply borrow_body_store; eauto.
+    - cbn. apply same_store_refl. }
+  refine (fold_bind_inv (fun x => same_store s x) _ _ _ (return_step_bind e b (a_dep a)) _ _ _ H A).
+  intros s1 dk s2 P G. eapply same_store_trans; [exact P|]. eapply return_body_store; eauto.
+Qed.
+
+Lemma seize_store e s k b dp bw s' : seize e s k b dp bw = Ok s' tt -> same_store s s'.
+Proof.
+  unfold seize. intros H. inv_bind H as s1 E1. inv_bind H as u1 G1.
+  assert (A : same_store s s1).
+  { destruct (cempty (nd e) (keeper_reward e dp)); [apply ret_ok in E1; subst; apply same_store_refl|].
+    inv_bind E1 as s0 E0. eapply same_store_trans; [eapply dec_supplied_store; eauto|eapply bsend_store; eauto]. }
+  match type of H with (if ?c then _ else _) = _ => destruct c end.
+  - apply ret_ok in H. subst. exact A.
+  - eapply same_store_trans; [exact A|]. eapply start_auctions_store; eauto.
+Qed.
+
+Lemma liquidate_spec e s k b s' : liquidate e s k b = Ok s' tt ->
+  exists s2 dp bw s3,
+    sync_position e s b = Ok s2 tt /\ dep s2 b = Some dp /\ bor s2 b = Some bw /\
+    within_ltv e s2 (amt dp) (amt bw) = Some false /\
+    seize e s2 k b (amt dp) (amt bw) = Ok s3 tt /\
+    dep s' b = None /\ bor s' b = None /\
+    (forall v, v <> b -> dep s' v = dep s v /\ bor s' v = bor s v) /\
+    bal s' = bal s3 /\ bal s2 = bal s /\ price s' = price s.
+Proof.
+  unfold liquidate. intros H.
+  inv_bind H as u1 G1. inv_bind H as u2 G2. inv_bind H as u3 G3. inv_bind H as u4 G4.
+  inv_bind H as s1 E1. inv_bind H as s2 E2.
+  destruct (dep s2 b) as [dp|] eqn:Ed; [|discriminate].
+  destruct (bor s2 b) as [bw|] eqn:Eb; [|discriminate].
+  inv_bind H as w E3. inv_bind H as u5 G5. inv_bind H as s3 E4. apply ret_ok in H.
+  apply opt_err_ok in E3. apply err_unless_ok in G5. destruct w; [discriminate|].
+  destruct (sync_borrow_frame _ _ _ _ E1) as (B1 & B2 & B3 & _ & _ & _ & _ & _ & _ & B10 & _).
+  destruct (sync_supply_frame _ _ _ _ E2) as (S1 & S2 & S3 & _ & _ & _ & _ & _ & _ & S10 & _).
+  destruct (seize_store _ _ _ _ _ _ _ E4) as (P1 & P2 & P3 & _).
+  exists s2, dp, bw, s3. split; [unfold sync_position; rewrite E1; cbn; exact E2|].
+  repeat split; try assumption; subst s'; cbn.
+  - unfold upd. rewrite Nat.eqb_refl. reflexivity.
+  - unfold upd. rewrite Nat.eqb_refl. reflexivity.
+  - unfold upd. destruct (Nat.eqb_spec v b); [contradiction|]. rewrite P2, S10, B3 by assumption. reflexivity.
+  - unfold upd. destruct (Nat.eqb_spec v b); [contradiction|]. rewrite P3, S3. apply B10. assumption.
+  - congruence.
+  - congruence.
+  - congruence.
+Qed.
+
+(** *** how much leaves the module during a liquidation *)
+Lemma bal_move s f t c x d :
+  bal (move s f t c) x d = bal s x d - (if Nat.eqb x f then c d else 0) + (if Nat.eqb x t then c d else 0).
+Proof. reflexivity. Qed.
+
+Lemma csingle_eq d x y : csingle d x y = if Nat.eqb y d then x else 0.
+Proof. reflexivity. Qed.
+
+(* running deposits are non-negative, the module never holds less than C + running deposits,
+   accounts other than the module and the auction account are not touched *)
+Definition auc_ok (e : env) (s0 : state) (C : nat -> Z) (s : state) (deps : coins) : Prop :=
+  (forall d, (d < nd e)%nat -> 0 <= deps d /\ C d <= bal s (hacc e) d - deps d) /\
+  (forall x d, x <> hacc e -> x <> aacc e -> bal s x d = bal s0 x d).
+Definition auc_inv e s0 C (a : astate) : Prop := auc_ok e s0 C (a_s a) (a_dep a).
+
+Lemma hacc_neq_aacc e : Nat.eqb (hacc e) (aacc e) = false.
+Proof. apply Nat.eqb_neq. unfold hacc, aacc. lia. Qed.
+
+Lemma start_auction_inv e s0 C a macc bk dk lot bid s' b' d' :
+  auc_inv e s0 C a -> start_auction e a macc bk dk lot bid = Ok (s', b', d') tt ->
+  auc_ok e s0 C s' d'.
+Proof.
+  intros [I1 I2]. unfold start_auction. intros G.
+  inv_bind G as u1 G1. inv_bind G as u2 G2. inv_bind G as u3 G3.
+  inv_bind G as s1 E1. inv_bind G as s2 E2. inv_bind G as s3 E3. inv_bind G as u4 G4.
+  apply ret_ok in G. inversion G; subst; clear G.
+  apply err_unless_ok in G3. apply bsend_ok in E1. destruct E1 as [_ ->].
+  apply dec_supplied_ok in E2. apply dec_borrowed_ok in E3. subst s' s2.
+  set (lot' := if macc dk <? lot then macc dk else lot) in *.
+  assert (Hl : lot' <= a_dep a dk) by (destruct (Z.ltb_spec (a_dep a dk) lot'); [discriminate|lia]).
+  split.
+  - intros d Hd. destruct (I1 d Hd) as [J1 J2]. cbn [bal set_tbor set_tsup]. rewrite bal_move.
+    rewrite Nat.eqb_refl, hacc_neq_aacc, csingle_eq.
+    destruct (macc dk <? lot).
+    + unfold upd. destruct (Nat.eqb_spec d dk); [subst; lia|lia].
+    + unfold csub. rewrite csingle_eq. destruct (Nat.eqb_spec d dk); [subst; lia|lia].
+  - intros x d Hx1 Hx2. rewrite <- (I2 x d Hx1 Hx2). cbn [bal set_tbor set_tsup]. rewrite bal_move.
+    destruct (Nat.eqb_spec x (hacc e)); [contradiction|]. destruct (Nat.eqb_spec x (aacc e)); [contradiction|]. lia.
+Qed.
+
+Lemma auction_body_inv e s0 C ltv macc bk a dk a' :
+  auc_inv e s0 C a -> auction_body e ltv macc bk a dk = Ok a' tt -> auc_inv e s0 C a'.
+Proof.
+  intros I. unfold auction_body, auction_step. cbn [bind ret]. intros H.
+  destruct (a_max a =? 0); [apply ret_ok in H; subst; exact I|].
+  destruct (a_max a <=? a_dv a dk).
+  - inv_bind H as ls E1. destruct (dec_trunc_int ls =? 0); [apply ret_ok in H; subst; exact I|].
+    inv_bind H as x E2. destruct x as [[s1 b1] d1]. apply ret_ok in H. subst a'.
+    unfold auc_inv. cbn. eapply start_auction_inv; eauto.
+  - inv_bind H as bs E1.
+    destruct ((dec_trunc_int bs =? 0) || (a_dep a dk =? 0)); [apply ret_ok in H; subst; exact I|].
+    inv_bind H as x E2. destruct x as [[s1 b1] d1]. inv_bind H as m E3. apply ret_ok in H. subst a'.
+    unfold auc_inv. cbn. eapply start_auction_inv; eauto.
+Qed.
+
+Lemma borrow_body_inv e s0 C ltv macc dkeys a bk a' :
+  auc_inv e s0 C a -> borrow_body e ltv macc dkeys a bk = Ok a' tt -> auc_inv e s0 C a'.
+Proof.
+  intros I. unfold borrow_body, borrow_step. cbn [bind ret]. intros H. inv_bind H as m E1.
+  refine (fold_bind_inv (auc_inv e s0 C) _ _ dkeys (auction_step_bind e ltv macc bk) _ _ _ H _).
+  - intros a1 b a2 P G. eapply auction_body_inv; eauto.
+  - exact I.
+Qed.
+
+(* returning the remaining deposits: the module pays at most max 0 (deps d) per listed denom *)
+Lemma return_fold e b deps l : NoDup l -> forall s s',
+  fold_left (return_step e b deps) l (ret s) = Ok s' tt ->
+  (forall d, bal s (hacc e) d - (if in_dec Nat.eq_dec d l then Z.max 0 (deps d) else 0) <= bal s' (hacc e) d) /\
+  (forall x d, x <> hacc e -> x <> b -> bal s' x d = bal s x d).
+Proof.
+  induction 1 as [|dk l Hn Hnd IH]; intros s s' H; cbn [fold_left] in H.
+  - apply ret_ok in H. subst. split; [intros d; cbn; lia|reflexivity].
+  - rewrite return_step_bind in H. cbn [bind ret] in H.
+    destruct (return_body e b deps s dk) as [s1 []| |] eqn:G.
+    2,3: exfalso; eapply (fold_not_ok _ _ l _ (return_step_bind e b deps)); [|exact H]; discriminate.
+    destruct (IH _ _ H) as [J1 J2].
+    assert (K : (forall d, bal s (hacc e) d - (if Nat.eqb d dk then Z.max 0 (deps d) else 0) <= bal s1 (hacc e) d) /\
+                (forall x d, x <> hacc e -> x <> b -> bal s1 x d = bal s x d)).
+    { unfold return_body, return_step in G. cbn [bind ret] in G.
+      destruct (Z.ltb_spec 0 (deps dk)).
+      - apply bsend_ok in G. destruct G as [_ ->]. split.
+        + intros d. rewrite bal_move, Nat.eqb_refl, csingle_eq.
+          destruct (Nat.eqb_spec d dk); destruct (Nat.eqb (hacc e) b); subst; lia.
+        + intros x d Hx1 Hx2. rewrite bal_move.
+          destruct (Nat.eqb_spec x (hacc e)); [contradiction|]. destruct (Nat.eqb_spec x b); [contradiction|]. lia.
+      - apply ret_ok in G. subst. split; [|reflexivity]. intros d. destruct (Nat.eqb d dk); lia. }
+    destruct K as [K1 K2]. split.
+    + intros d. specialize (J1 d). specialize (K1 d).
+      destruct (in_dec Nat.eq_dec d (dk :: l)) as [Hin|Hnin].
+      * destruct (Nat.eqb_spec d dk) as [->|Hne].
+        -- destruct (in_dec Nat.eq_dec dk l); [contradiction|]. lia.
+        -- destruct (in_dec Nat.eq_dec d l) as [|Hn2]; [lia|]. exfalso. destruct Hin; [congruence|contradiction].
+      * destruct (Nat.eqb_spec d dk) as [->|Hne]; [exfalso; apply Hnin; left; reflexivity|].
+        destruct (in_dec Nat.eq_dec d l); [exfalso; apply Hnin; right; assumption|]. lia.
+    + intros x d Hx1 Hx2. rewrite J2, K2 by assumption. reflexivity.
+Qed.
+
+Lemma denoms_nodup n c : NoDup (denoms n c).
+Proof. unfold denoms. apply NoDup_filter, seq_NoDup. Qed.
+
+Lemma start_auctions_scope e s b bw aucdep dvals bvals ltv s' :
+  start_auctions e s b bw aucdep dvals bvals ltv = Ok s' tt ->
+  (forall d, (d < nd e)%nat -> 0 <= aucdep d) ->
+  (forall d, (d < nd e)%nat -> bal s (hacc e) d - bal s' (hacc e) d <= aucdep d) /\
+  (forall x d, x <> hacc e -> x <> aacc e -> x <> b -> bal s' x d = bal s x d).
+Proof.
+  unfold start_auctions. intros H Hpos. inv_bind H as a E1.
+  set (C := fun d => bal s (hacc e) d - aucdep d).
+  assert (I : auc_inv e s C a).
+  { refine (fold_bind_inv (auc_inv e s C) _ _ _ (borrow_step_bind e ltv (bal s (hacc e)) _) _ _ _ E1 _).
+    - intros a1 bk a2 P G. eapply borrow_body_inv; eauto.
+    - split; cbn; [|reflexivity]. intros d Hd. split; [apply Hpos, Hd|unfold C; lia]. }
+  destruct I as [I1 I2].
+  destruct (return_fold e b (a_dep a) _ (denoms_nodup (nd e) aucdep) _ _ H) as [R1 R2].
+  split.
+  - intros d Hd. destruct (I1 d Hd) as [J1 J2]. specialize (R1 d). unfold C in J2.
+    destruct (in_dec Nat.eq_dec d (denoms (nd e) aucdep)); lia.
+  - intros x d Hx1 Hx2 Hx3. rewrite R2, I2 by assumption. reflexivity.
+Qed.
+
+Lemma keeper_reward_bounds e dp d : 0 <= keeper_reward e dp d.
+Proof. unfold keeper_reward. destruct (0 <? _) eqn:E; [apply Z.ltb_lt in E; lia|lia]. Qed.
+
+Lemma seize_scope e s k b dp bw s' : seize e s k b dp bw = Ok s' tt -> k <> hacc e ->
+  (forall d, (d < nd e)%nat -> bal s (hacc e) d - bal s' (hacc e) d <= dp d) /\
+  (forall x d, x <> hacc e -> x <> aacc e -> x <> b -> x <> k -> bal s' x d = bal s x d) /\
+  (k <> aacc e -> k <> b -> forall d, (d < nd e)%nat -> bal s' k d = bal s k d + keeper_reward e dp d).
+Proof.
+  unfold seize. intros H Hk. inv_bind H as s1 E1. inv_bind H as u1 G1.
+  apply panic_unless_ok in G1. apply negb_true_iff in G1.
+  assert (Hpos : forall d, (d < nd e)%nat -> 0 <= csub dp (keeper_reward e dp) d).
+  { intros d Hd. unfold cany_neg in G1. destruct (Z.ltb_spec (csub dp (keeper_reward e dp) d) 0) as [Hlt|]; [|lia].
+    exfalso. assert (existsb (fun d0 => csub dp (keeper_reward e dp) d0 <? 0) (seq 0 (nd e)) = true).
+    { apply existsb_exists. exists d. split; [apply in_seq; lia|apply Z.ltb_lt; lia]. } congruence. }
+  assert (A : forall x d, (d < nd e)%nat ->
+              bal s1 x d = bal s x d - (if Nat.eqb x (hacc e) then keeper_reward e dp d else 0)
+                                     + (if Nat.eqb x k then keeper_reward e dp d else 0)).
+  { intros x d Hd. destruct (cempty (nd e) (keeper_reward e dp)) eqn:Ec.
+    - apply ret_ok in E1. subst s1. apply cempty_spec in Ec. rewrite (Ec d Hd). unfold czero.
+      destruct (Nat.eqb x (hacc e)); destruct (Nat.eqb x k); lia.
+    - inv_bind E1 as sx Ex. apply dec_supplied_ok in Ex. apply bsend_ok in E1. destruct E1 as [_ ->]. subst sx.
+      rewrite bal_move. reflexivity. }
+  assert (A' : forall x d, x <> hacc e -> x <> k -> bal s1 x d = bal s x d).
+  { intros x d Hx1 Hx2. destruct (cempty (nd e) (keeper_reward e dp)) eqn:Ec.
+    - apply ret_ok in E1. subst s1. reflexivity.
+    - inv_bind E1 as sx Ex. apply dec_supplied_ok in Ex. apply bsend_ok in E1. destruct E1 as [_ ->]. subst sx.
+      rewrite bal_move. destruct (Nat.eqb_spec x (hacc e)); [contradiction|]. destruct (Nat.eqb_spec x k); [contradiction|]. cbn. lia. }
+  match type of H with (if ?c then _ else _) = _ => destruct c end.
+  - apply ret_ok in H. subst s'. split; [|split].
+    + intros d Hd. rewrite (A _ d Hd), Nat.eqb_refl. specialize (Hpos d Hd). unfold csub in Hpos.
+      destruct (Nat.eqb_spec (hacc e) k); [congruence|]. lia.
+    + intros x d Hx1 Hx2 Hx3 Hx4. apply A'; assumption.
+    + intros Hk2 Hk3 d Hd. rewrite (A _ d Hd), Nat.eqb_refl. destruct (Nat.eqb_spec k (hacc e)); [contradiction|]. lia.
+  - destruct (start_auctions_scope _ _ _ _ _ _ _ _ _ H Hpos) as [S1 S2]. split; [|split].
+    + intros d Hd. specialize (S1 d Hd). rewrite (A _ d Hd), Nat.eqb_refl in S1. unfold csub in S1.
+      destruct (Nat.eqb_spec (hacc e) k); [congruence|]. lia.
+    + intros x d Hx1 Hx2 Hx3 Hx4. rewrite S2 by assumption. apply A'; assumption.
+    + intros Hk2 Hk3 d Hd. rewrite S2 by assumption. rewrite (A _ d Hd), Nat.eqb_refl.
+      destruct (Nat.eqb_spec k (hacc e)); [contradiction|]. lia.
+Qed.
+
+(** ** borrow: what ValidateBorrow guarantees (new and existing borrow valued separately) *)
+Lemma validate_borrow_ok e s u c x : validate_borrow e s u c = Ok x tt ->
+  exists dp, dep s u = Some dp /\
+    all_priced e s c = true /\ all_priced e s (amt dp) = true /\ all_priced e s (amt_of (bor s u)) = true /\
+    value_of e s c + value_of e s (amt_of (bor s u)) <= borrowable_of e s (amt dp) /\
+    min_borrow e <= value_of e s c + value_of e s (amt_of (bor s u)).
+Proof.
+  unfold validate_borrow. intros H.
+  inv_bind H as u1 G1. inv_bind H as u2 G2. inv_bind H as u3 G3. inv_bind H as u4 G4.
+  destruct (dep s u) as [dp|]; [|discriminate].
+  inv_bind H as u5 G5. inv_bind H as u6 G6. inv_bind H as u7 G7.
+  apply err_unless_ok in H, G3, G5, G6, G7. apply negb_true_iff in H, G7.
+  apply Z.ltb_ge in H, G7.
+  exists dp. repeat split; try assumption; lia.
+Qed.
+
+Lemma borrow_spec e s u c s' : borrow e s u c = Ok s' tt ->
+  exists s2 dp,
+    dep s2 u = Some dp /\
+    all_priced e s2 c = true /\ all_priced e s2 (amt dp) = true /\ all_priced e s2 (amt_of (bor s2 u)) = true /\
+    value_of e s2 c + value_of e s2 (amt_of (bor s2 u)) <= borrowable_of e s2 (amt dp) /\
+    price s' = price s2 /\ dep s' = dep s2 /\
+    ceq (nd e) (amt_of (bor s' u)) (cadd (amt_of (bor s2 u)) c) /\
+    (forall v, v <> u -> dep s' v = dep s v /\ bor s' v = bor s v) /\
+    bal s' = bal (move s2 (hacc e) u c) /\ bal s2 = bal s.
+Proof.
+  unfold borrow. intros H.
+  inv_bind H as u1 G1. inv_bind H as u2 G2. inv_bind H as s1 E1. inv_bind H as s2 E2.
+  inv_bind H as u3 G3. inv_bind H as s3 E3. apply ret_ok in H.
+  apply validate_borrow_ok in G3. destruct G3 as (dp & Hd & P1 & P2 & P3 & V & _).
+  apply bsend_ok in E3. destruct E3 as [_ ->].
+  destruct (sync_supply_frame _ _ _ _ E1) as (S1 & S2 & S3 & _ & _ & _ & _ & _ & _ & S10 & _).
+  destruct (sync_borrow_frame _ _ _ _ E2) as (B1 & B2 & B3 & _ & _ & _ & _ & _ & _ & B10 & _).
+  exists s2, dp. subst s'. cbn.
+  repeat split; try assumption; try reflexivity.
+  - unfold upd. rewrite Nat.eqb_refl. apply amt_of_store.
+  - rewrite B3. apply S10. assumption.
+  - unfold upd. destruct (Nat.eqb_spec v u); [contradiction|]. rewrite B10, S3 by assumption. reflexivity.
+  - rewrite B1, S1. reflexivity.
+Qed.
+
+Lemma borrow_gate_partial e s u c s' : borrow e s u c = Ok s' tt ->
+  exists old,
+    ceq (nd e) (amt_of (bor s' u)) (cadd old c) /\
+    all_priced e s' (amt_of (dep s' u)) = true /\ all_priced e s' old = true /\ all_priced e s' c = true /\
+    value_of e s' old + value_of e s' c <= borrowable_of e s' (amt_of (dep s' u)).
+Proof.
+  intros H. apply borrow_spec in H.
+  destruct H as (s2 & dp & Hd & P1 & P2 & P3 & V & Hp & Hdep & Hb & _).
+  exists (amt_of (bor s2 u)). rewrite Hdep, Hd. cbn [amt_of].
+  assert (R : ceq (nd e) (amt dp) (amt dp)) by (intros d _; reflexivity).
+  assert (R2 : forall c0 : coins, ceq (nd e) c0 c0) by (intros c0 d _; reflexivity).
+  rewrite (all_priced_ext _ _ _ _ _ Hp R), !(all_priced_ext _ _ _ _ _ Hp (R2 _)),
+          !(value_of_ext _ _ _ _ _ Hp (R2 _)), (borrowable_of_ext _ _ _ _ _ Hp R).
+  repeat split; try assumption. lia.
+Qed.
+
+(** ** repay: the payment is capped by the synced debt *)
+Lemma repay_spec e s a o c s' : repay e s a o c = Ok s' tt ->
+  exists s2 r,
+    sync_borrow e s o = Ok s2 tt /\ bor s2 o = Some r /\
+    let pay := capped e c (amt r) in
+    can_pay (nd e) s2 a pay = true /\
+    bal s' = bal (move s2 a (hacc e) pay) /\ bal s2 = bal s /\
+    ceq (nd e) (amt_of (bor s' o)) (csub (amt r) pay) /\
+    dep s' = dep s /\ (forall v, v <> o -> bor s' v = bor s v).
+Proof.
+  unfold repay. intros H.
+  inv_bind H as u1 G1. inv_bind H as u2 G2. inv_bind H as s2 E2.
+  destruct (bor s2 o) as [r|] eqn:Er; [|discriminate].
+  inv_bind H as u3 G3. inv_bind H as u4 G4. inv_bind H as u5 G5. inv_bind H as u6 G6.
+  inv_bind H as s3 E3. inv_bind H as ix E4. inv_bind H as u7 G7.
+  apply dec_borrowed_ok in H. apply bsend_ok in E3. destruct E3 as [Hpay ->].
+  destruct (sync_borrow_frame _ _ _ _ E2) as (B1 & B2 & B3 & _ & _ & _ & _ & _ & _ & B10 & _).
+  exists s2, r. split; [assumption|]. split; [assumption|]. cbn zeta. subst s'. cbn.
+  repeat split; try assumption; try reflexivity.
+  - unfold upd. rewrite Nat.eqb_refl. apply amt_of_store.
+  - intros v Hv. unfold upd. destruct (Nat.eqb_spec v o); [contradiction|]. apply B10, Hv.
+Qed.
+
+Lemma capped_le e c a d : 0 <= a d -> 0 <= capped e c a d <= a d \/ (c d < 0).
+Proof.
+  intros Ha. unfold capped. destruct (Z.eqb_spec (c d) 0); [left; lia|].
+  destruct (Z.ltb_spec (a d) (c d)); [left; lia|]. destruct (Z_lt_le_dec (c d) 0); [right; lia|left; lia].
+Qed.
+
+(** ** interest: the synced amount is monotone in the global factor *)
+Lemma bor_interest_mono a uf f f' : 0 <= a -> 0 < uf -> 0 <= f <= f' ->
+  bor_interest a f uf <= bor_interest a f' uf.
+Proof.
+  intros Ha Hu Hf. unfold bor_interest, dec_trunc_int.
+  apply Z.quot_le_mono; [reflexivity|].
+  assert (Q : 0 <= dec_quo (dec_of_int a) uf) by (apply dec_quo_nonneg; [unfold dec_of_int, PREC; lia|lia]).
+  assert (dec_mul (dec_quo (dec_of_int a) uf) f <= dec_mul (dec_quo (dec_of_int a) uf) f').
+  { unfold dec_mul. apply chop_round_mono_nonneg. nia. }
+  lia.
+Qed.
+
+Definition fac_nonneg (gf : nat -> option Z) : Prop := forall d f, gf d = Some f -> 0 <= f.
+Definition fac_mono (gf gf' : nat -> option Z) : Prop :=
+  forall d f, gf d = Some f -> exists f', gf' d = Some f' /\ f <= f'.
+(* index entries are positive and exist only for denoms that have a global factor *)
+Definition idx_sound (gf : nat -> option Z) (r : urec) : Prop :=
+  forall d uf, idx_get d (idx r) = Some uf -> 0 < uf /\ gf d <> None.
+
+Lemma load_coin_bind gf r acc d :
+  load_coin gf r acc d = bind acc (fun tot => load_coin gf r (ret tot) d).
+Proof. destruct acc as [a []| |]; reflexivity. Qed.
+
+Lemma load_fold_mono gf gf' r l :
+  (forall d, 0 <= amt r d) -> fac_nonneg gf -> fac_mono gf gf' -> idx_sound gf r ->
+  forall (tot tot' c : coins), (forall d, tot d <= tot' d) ->
+  fold_left (load_coin gf r) l (ret tot) = Ok c tt ->
+  exists c', fold_left (load_coin gf' r) l (ret tot') = Ok c' tt /\ forall d, c d <= c' d.
+Proof.
+  intros Ha Hn Hm Hs. induction l as [|d l IH]; intros tot tot' c Ht H; cbn [fold_left] in *.
+  - apply ret_ok in H. subst. exists tot'. split; [reflexivity|assumption].
+  - destruct (load_coin gf r (ret tot) d) as [t1 []| |] eqn:G.
+    2,3: exfalso; eapply (fold_not_ok _ _ l _ (load_coin_bind gf r)); [|exact H]; discriminate.
+    assert (K : exists t1', load_coin gf' r (ret tot') d = Ok t1' tt /\ forall x, t1 x <= t1' x).
+    { unfold load_coin in *. cbn [bind ret] in *.
+      destruct (gf d) as [f|] eqn:Egf.
+      - destruct (Hm d f Egf) as (f' & Egf' & Hff). rewrite Egf'.
+        destruct (idx_get d (idx r)) as [uf|] eqn:Ei.
+        + destruct (Hs d uf Ei) as [Hu _].
+          destruct (Z.eqb_spec uf 0); [lia|].
+          destruct (Z.ltb_spec (bor_interest (amt r d) f uf) 0); [discriminate|].
+          apply ret_ok in G. subst t1.
+          pose proof (bor_interest_mono (amt r d) uf f f' (Ha d) Hu (conj (Hn d f Egf) Hff)) as M.
+          destruct (Z.ltb_spec (bor_interest (amt r d) f' uf) 0); [lia|].
+          eexists. split; [reflexivity|]. intros x. unfold upd. destruct (Nat.eqb x d); [lia|apply Ht].
+        + apply ret_ok in G. subst t1. exists tot'. split; [reflexivity|assumption].
+      - apply ret_ok in G. subst t1.
+        destruct (idx_get d (idx r)) as [uf|] eqn:Ei.
+        + destruct (Hs d uf Ei) as [_ Hx]. congruence.
+        + exists tot'. split; [destruct (gf' d); reflexivity|assumption]. }
+    destruct K as (t1' & G' & Ht1). rewrite G'. eapply IH; eauto.
+Qed.
+
+Lemma load_synced_mono n gf gf' r c :
+  (forall d, 0 <= amt r d) -> fac_nonneg gf -> fac_mono gf gf' -> idx_sound gf r ->
+  load_synced n gf r = Ok c tt ->
+  exists c', load_synced n gf' r = Ok c' tt /\ forall d, c d <= c' d.
+Proof.
+  intros Ha Hn Hm Hs. unfold load_synced. intros H. inv_bind H as tot E. apply ret_ok in H. subst c.
+  destruct (load_fold_mono gf gf' r _ Ha Hn Hm Hs czero czero tot (fun d => Z.le_refl _) E) as (t' & E' & Ht).
+  exists (cadd (amt r) t'). rewrite E'. cbn [bind ret]. split; [reflexivity|]. intros d. unfold cadd. specialize (Ht d). lia.
+Qed.
+
+Lemma fac_mono_refl gf : fac_mono gf gf.
+Proof. intros d f H. exists f. split; [assumption|lia]. Qed.
+Lemma fac_mono_trans a b c : fac_mono a b -> fac_mono b c -> fac_mono a c.
+Proof. intros H1 H2 d f E. destruct (H1 d f E) as (f1 & E1 & L1). destruct (H2 d f1 E1) as (f2 & E2 & L2). exists f2. split; [assumption|lia]. Qed.
+
+Lemma dec_mul_ge_one x f : 0 <= x -> PREC <= f -> x <= dec_mul x f.
+Proof.
+  intros Hx Hf. unfold dec_mul. rewrite <- (chop_round_exact x Hx) at 1.
+  apply chop_round_mono_nonneg. unfold PREC in *. nia.
+Qed.
+
+(* one market's accrual: records untouched, borrow factors only grow *)
+Lemma accrue_borrow_side e s d t f s' : accrue e s d t f = Ok s' tt -> PREC <= f -> fac_nonneg (bfac s) ->
+  dep s' = dep s /\ bor s' = bor s /\ fac_mono (bfac s) (bfac s') /\ fac_nonneg (bfac s').
+Proof.
+  unfold accrue. intros H Hf Hn.
+  destruct (prev s d) as [p|]; [|apply ret_ok in H; subst; cbn; auto using fac_mono_refl].
+  destruct (t - p =? 0); [apply ret_ok in H; subst; auto using fac_mono_refl|].
+  destruct (tbor s d =? 0); [apply ret_ok in H; subst; cbn; auto using fac_mono_refl|].
+  set (bf := match bfac s d with Some x => x | None => PREC end) in *.
+  assert (Hbf : 0 <= bf) by (unfold bf; destruct (bfac s d) eqn:E; [eapply Hn; eauto|unfold PREC; lia]).
+  assert (M1 : fac_mono (bfac s) (upd (bfac s) d (Some bf)) /\ fac_nonneg (upd (bfac s) d (Some bf))).
+  { split.
+    - intros d' x E. unfold upd. destruct (Nat.eqb_spec d' d) as [->|].
+      + exists bf. split; [reflexivity|]. unfold bf. rewrite E. lia.
+      + exists x. split; [assumption|lia].
+    - intros d' x. unfold upd. destruct (Nat.eqb_spec d' d); [intros E; inversion E; subst; assumption|apply Hn]. }
+  destruct (mm e d) as [m|]; [|discriminate].
+  inv_bind H as apy E1. inv_bind H as u1 G1.
+  match type of H with (if ?c then _ else _) = _ => destruct c end.
+  - apply ret_ok in H. subst s'. cbn. tauto.
+  - inv_bind H as u2 G2. inv_bind H as u3 G3. inv_bind H as u4 G4. apply ret_ok in H. subst s'. cbn.
+    split; [reflexivity|]. split; [reflexivity|]. split.
+    + intros d' x E. unfold upd. destruct (Nat.eqb_spec d' d) as [->|].
+      * eexists. split; [reflexivity|]. pose proof (dec_mul_ge_one bf f Hbf Hf). unfold bf in *. rewrite E in *. lia.
+      * exists x. split; [assumption|lia].
+    + intros d' x. unfold upd. destruct (Nat.eqb_spec d' d).
+      * intros E; inversion E; subst. apply dec_mul_nonneg; [assumption|unfold PREC in *; lia].
+      * apply Hn.
+Qed.
+
+Lemma begin_block_borrow_side e s t fs s' : begin_block e s t fs = Ok s' tt ->
+  (forall d, (d < nd e)%nat -> PREC <= nthZ fs d) -> fac_nonneg (bfac s) ->
+  dep s' = dep s /\ bor s' = bor s /\ fac_mono (bfac s) (bfac s') /\ fac_nonneg (bfac s').
+Proof.
+  unfold begin_block. intros H Hf Hn.
+  match type of H with match ?x with _ => _ end = _ => destruct x as [s1 []| |] eqn:F end; try discriminate.
+  apply ret_ok in H. subst s1.
+  refine (fold_bind_inv_in (fun x => dep x = dep s /\ bor x = bor s /\ fac_mono (bfac s) (bfac x) /\ fac_nonneg (bfac x))
+            _ (fun s0 d => accrue e s0 d t (nthZ fs d)) _ _ _ _ _ F _).
+  - intros acc b. reflexivity.
+  - intros a b a2 Hin (P1 & P2 & P3 & P4) G.
+    assert (Hb : (b < nd e)%nat) by (apply filter_In in Hin; destruct Hin as [Hin _]; apply in_seq in Hin; lia).
+    destruct (accrue_borrow_side _ _ _ _ _ _ G (Hf b Hb) P4) as (Q1 & Q2 & Q3 & Q4).
+    split; [congruence|]. split; [congruence|]. split; [eapply fac_mono_trans; eauto|assumption].
+  - repeat split; auto using fac_mono_refl.
+Qed.
+
+Theorem interest_monotone_borrow e s t fs s' u r c :
+  begin_block e s t fs = Ok s' tt -> (forall d, (d < nd e)%nat -> PREC <= nthZ fs d) ->
+  fac_nonneg (bfac s) -> bor s u = Some r -> (forall d, 0 <= amt r d) -> idx_sound (bfac s) r ->
+  synced_borrow e s u = Some (Ok c tt) ->
+  exists c', synced_borrow e s' u = Some (Ok c' tt) /\ forall d, c d <= c' d.
+Proof.
+  intros H Hf Hn Hb Ha Hs Hc.
+  destruct (begin_block_borrow_side _ _ _ _ _ H Hf Hn) as (_ & B & M & _).
+  unfold synced_borrow in *. rewrite B, Hb in *. inversion Hc as [Hc']; clear Hc.
+  destruct (load_synced_mono (nd e) _ _ r c Ha Hn M Hs Hc') as (c' & E & L).
+  exists c'. rewrite E. split; [reflexivity|assumption].
+Qed.
+
+(** ** supply side, under the guard "reserves <= cash + borrows" *)
+Definition env_wf (e : env) : Prop :=
+  forall d m, mm e d = Some m -> 0 <= m_reserve m <= PREC.
+Definition reserves_covered (e : env) (s : state) : Prop :=
+  forall d, tres s d <= bal s (hacc e) d + tbor s d.
+
+Lemma supply_factor_ge_one sint cash b r : 0 <= sint -> r <= cash + b ->
+  PREC <= supply_factor (dec_of_int sint) (dec_of_int cash) (dec_of_int b) (dec_of_int r).
+Proof.
+  intros Hs Hg. unfold supply_factor, dec_of_int.
+  destruct (Z.eqb_spec (cash * PREC + b * PREC - r * PREC) 0); [lia|].
+  assert (0 <= dec_quo (sint * PREC) (cash * PREC + b * PREC - r * PREC)).
+  { apply dec_quo_nonneg; unfold PREC in *; nia. }
+  lia.
+Qed.
+
+Lemma reserve_share_le i rf : 0 <= i -> 0 <= rf <= PREC ->
+  dec_trunc_int (dec_mul (dec_of_int i) rf) <= i.
+Proof.
+  intros Hi Hr. unfold dec_trunc_int, dec_mul, dec_of_int.
+  assert (chop_round (i * PREC * rf) <= i * PREC).
+  { rewrite <- (chop_round_exact (i * PREC)) at 2 by (unfold PREC; lia).
+    apply chop_round_mono_nonneg. unfold PREC in *. nia. }
+  rewrite <- (Z.quot_mul i PREC) at 2 by (unfold PREC; lia).
+  apply Z.quot_le_mono; [reflexivity|assumption].
+Qed.
+
+Lemma accrue_supply_side e s d t f s' : accrue e s d t f = Ok s' tt -> env_wf e ->
+  fac_nonneg (sfac s) -> reserves_covered e s ->
+  dep s' = dep s /\ bor s' = bor s /\ fac_mono (sfac s) (sfac s') /\ fac_nonneg (sfac s') /\ reserves_covered e s'.
+Proof.
+  unfold accrue. intros H Hwf Hn Hg.
+  destruct (prev s d) as [p|]; [|apply ret_ok in H; subst; cbn; auto using fac_mono_refl].
+  destruct (t - p =? 0); [apply ret_ok in H; subst; auto using fac_mono_refl|].
+  destruct (tbor s d =? 0); [apply ret_ok in H; subst; cbn; auto using fac_mono_refl|].
+  set (sf := match sfac s d with Some x => x | None => PREC end) in *.
+  assert (Hsf : 0 <= sf) by (unfold sf; destruct (sfac s d) eqn:E; [eapply Hn; eauto|unfold PREC; lia]).
+  assert (M1 : fac_mono (sfac s) (upd (sfac s) d (Some sf)) /\ fac_nonneg (upd (sfac s) d (Some sf))).
+  { split.
+    - intros d' x E. unfold upd. destruct (Nat.eqb_spec d' d) as [->|].
+      + exists sf. split; [reflexivity|]. unfold sf. rewrite E. lia.
+      + exists x. split; [assumption|lia].
+    - intros d' x. unfold upd. destruct (Nat.eqb_spec d' d); [intros E; inversion E; subst; assumption|apply Hn]. }
+  destruct (mm e d) as [m|] eqn:Em; [|discriminate].
+  inv_bind H as apy E1. inv_bind H as u1 G1.
+  match type of H with (if ?c then _ else _) = _ => destruct c end.
+  - apply ret_ok in H. subst s'. cbn. unfold reserves_covered. cbn. tauto.
+  - inv_bind H as u2 G2. inv_bind H as u3 G3. inv_bind H as u4 G4. apply ret_ok in H. subst s'. cbn.
+    apply panic_unless_ok in G2, G3, G4. apply Z.leb_le in G2, G3, G4.
+    set (interest := dec_trunc_int (dec_mul f (dec_of_int (tbor s d))) - tbor s d) in *.
+    set (rnew := dec_trunc_int (dec_mul (dec_of_int interest) (m_reserve m))) in *.
+    pose proof (supply_factor_ge_one (interest - rnew) (bal s (hacc e) d) (tbor s d) (tres s d) G3 (Hg d)) as Hsfn.
+    split; [reflexivity|]. split; [reflexivity|]. split; [|split].
+    + intros d' x E. unfold upd. destruct (Nat.eqb_spec d' d) as [->|].
+      * eexists. split; [reflexivity|]. pose proof (dec_mul_ge_one sf _ Hsf Hsfn). unfold sf in *. rewrite E in *. lia.
+      * exists x. split; [assumption|lia].
+    + intros d' x. unfold upd. destruct (Nat.eqb_spec d' d).
+      * intros E; inversion E; subst. apply dec_mul_nonneg; [assumption|unfold PREC in *; lia].
+      * apply Hn.
+    + intros d'. cbn. unfold cadd. rewrite !csingle_eq. specialize (Hg d').
+      destruct (Nat.eqb_spec d' d) as [->|]; [|lia].
+      pose proof (reserve_share_le interest (m_reserve m) G2 (Hwf d m Em)). fold rnew in H. lia.
+Qed.
+
+Theorem interest_monotone_supply e s t fs s' u r c :
+  begin_block e s t fs = Ok s' tt -> env_wf e ->
+  fac_nonneg (sfac s) -> reserves_covered e s ->
+  dep s u = Some r -> (forall d, 0 <= amt r d) -> idx_sound (sfac s) r ->
+  synced_deposit e s u = Some (Ok c tt) ->
+  exists c', synced_deposit e s' u = Some (Ok c' tt) /\ forall d, c d <= c' d.
+Proof.
+  intros H Hwf Hn Hg Hd Ha Hs Hc.
+  assert (X : dep s' = dep s /\ fac_mono (sfac s) (sfac s')).
+  { unfold begin_block in H.
+    match type of H with match ?x with _ => _ end = _ => destruct x as [s1 []| |] eqn:F end; try discriminate.
+    apply ret_ok in H. subst s1.
+    enough (Y : dep s' = dep s /\ bor s' = bor s /\ fac_mono (sfac s) (sfac s') /\ fac_nonneg (sfac s') /\ reserves_covered e s') by tauto.
+    refine (fold_bind_inv (fun x => dep x = dep s /\ bor x = bor s /\ fac_mono (sfac s) (sfac x) /\ fac_nonneg (sfac x) /\ reserves_covered e x)
+              _ (fun s0 d => accrue e s0 d t (nthZ fs d)) _ _ _ _ _ F _).
+    - intros acc b. reflexivity.
+    - intros a b a2 (P1 & P2 & P3 & P4 & P5) G.
+      destruct (accrue_supply_side _ _ _ _ _ _ G Hwf P4 P5) as (Q1 & Q2 & Q3 & Q4 & Q5).
+      split; [congruence|]. split; [congruence|]. split; [eapply fac_mono_trans; eauto|tauto].
+    - repeat split; auto using fac_mono_refl. }
+  destruct X as [D M].
+  unfold synced_deposit in *. rewrite D, Hd in *. inversion Hc as [Hc']; clear Hc.
+  destruct (load_synced_mono (nd e) _ _ r c Ha Hn M Hs Hc') as (c' & E & L).
+  exists c'. rewrite E. split; [reflexivity|assumption].
+Qed.
+
+(** ** assembled statements used by Properties/C08.v *)
+Lemma sync_position_bal e s u s2 : sync_position e s u = Ok s2 tt -> bal s2 = bal s /\ price s2 = price s.
+Proof.
+  unfold sync_position. intros H. inv_bind H as s1 E1.
+  destruct (sync_borrow_frame _ _ _ _ E1) as (B1 & B2 & _). destruct (sync_supply_frame _ _ _ _ H) as (S1 & S2 & _).
+  split; congruence.
+Qed.
+
+Lemma liq_only_unsafe e s k b s' : liquidate e s k b = Ok s' tt ->
+  exists s2 dp bw, sync_position e s b = Ok s2 tt /\ dep s2 b = Some dp /\ bor s2 b = Some bw /\
+                   within_ltv e s2 (amt dp) (amt bw) = Some false.
+Proof.
+  intros H. apply liquidate_spec in H. destruct H as (s2 & dp & bw & s3 & H1 & H2 & H3 & H4 & _).
+  exists s2, dp, bw. auto.
+Qed.
+
+Lemma safe_not_liquidatable e s b s2 dp bw :
+  sync_position e s b = Ok s2 tt -> dep s2 b = Some dp -> bor s2 b = Some bw ->
+  within_ltv e s2 (amt dp) (amt bw) = Some true ->
+  forall k s', liquidate e s k b <> Ok s' tt.
+Proof.
+  intros H1 H2 H3 H4 k s' H. apply liq_only_unsafe in H.
+  destruct H as (s2' & dp' & bw' & G1 & G2 & G3 & G4). rewrite H1 in G1. inversion G1; subst s2'.
+  rewrite H2 in G2. rewrite H3 in G3. inversion G2; inversion G3; subst. congruence.
+Qed.
+
+Lemma keeper_reward_share e dp d :
+  keeper_reward e dp d = Z.max 0 (dec_trunc_int (dec_mul_int (keeper_pct e d) (dp d))).
+Proof. unfold keeper_reward. destruct (Z.ltb_spec 0 (dec_trunc_int (dec_mul_int (keeper_pct e d) (dp d)))); lia. Qed.
+
+Lemma liq_scope e s k b s' : liquidate e s k b = Ok s' tt -> k <> hacc e ->
+  exists s2 dp, sync_position e s b = Ok s2 tt /\ dep s2 b = Some dp /\
+    (* the borrower's records are removed, nobody else's record changes *)
+    dep s' b = None /\ bor s' b = None /\
+    (forall v, v <> b -> dep s' v = dep s v /\ bor s' v = bor s v) /\
+    (* at most the (synced) deposit leaves the module, per denom *)
+    (forall d, (d < nd e)%nat -> bal s (hacc e) d - bal s' (hacc e) d <= amt dp d) /\
+    (* the keeper receives exactly the configured share of the deposit, rounded down *)
+    (k <> aacc e -> k <> b -> forall d, (d < nd e)%nat ->
+       bal s' k d = bal s k d + Z.max 0 (dec_trunc_int (dec_mul_int (keeper_pct e d) (amt dp d)))) /\
+    (* accounts other than the module, the auction account, the borrower and the keeper are untouched *)
+    (forall x d, x <> hacc e -> x <> aacc e -> x <> b -> x <> k -> bal s' x d = bal s x d).
+Proof.
+  intros H Hk. apply liquidate_spec in H.
+  destruct H as (s2 & dp & bw & s3 & H1 & H2 & H3 & H4 & H5 & H6 & H7 & H8 & H9 & H10 & H11).
+  destruct (seize_scope _ _ _ _ _ _ _ H5 Hk) as (S1 & S2 & S3).
+  exists s2, dp. rewrite H9, <- H10. repeat split; try assumption; try (apply H8; assumption).
+  intros Hk2 Hk3 d Hd. rewrite <- keeper_reward_share. apply S3; assumption.
+Qed.
+
+Lemma withdraw_capped e s u c s' : withdraw e s u c = Ok s' tt -> u <> hacc e ->
+  exists s2 r, sync_position e s u = Ok s2 tt /\ dep s2 u = Some r /\
+    let moved := capped e c (amt r) in
+    (forall d, bal s' u d = bal s u d + moved d /\ bal s' (hacc e) d = bal s (hacc e) d - moved d) /\
+    (forall d, 0 <= amt r d -> 0 <= c d -> 0 <= moved d <= amt r d) /\
+    ceq (nd e) (amt_of (dep s' u)) (csub (amt r) moved).
+Proof.
+  intros H Hu. apply withdraw_spec in H. destruct H as (s2 & r & H1 & H2 & H). cbn zeta in H.
+  destruct H as (_ & _ & _ & Hd & _ & _ & _ & Hb & Hb2).
+  exists s2, r. split; [assumption|]. split; [assumption|]. cbn zeta. split; [|split; [|assumption]].
+  - intros d. rewrite Hb, !bal_move, Hb2, !Nat.eqb_refl.
+    destruct (Nat.eqb_spec u (hacc e)); [contradiction|]. destruct (Nat.eqb_spec (hacc e) u); [congruence|]. lia.
+  - intros d Ha Hc. destruct (capped_le e c (amt r) d Ha); lia.
+Qed.
+
+Lemma repay_capped e s a o c s' : repay e s a o c = Ok s' tt -> a <> hacc e ->
+  exists s2 r, sync_borrow e s o = Ok s2 tt /\ bor s2 o = Some r /\
+    let pay := capped e c (amt r) in
+    (forall d, bal s' a d = bal s a d - pay d /\ bal s' (hacc e) d = bal s (hacc e) d + pay d) /\
+    (forall d, 0 <= amt r d -> 0 <= c d -> 0 <= pay d <= amt r d) /\
+    ceq (nd e) (amt_of (bor s' o)) (csub (amt r) pay).
+Proof.
+  intros H Ha. apply repay_spec in H. destruct H as (s2 & r & H1 & H2 & H). cbn zeta in H.
+  destruct H as (_ & Hb & Hb2 & Hd & _).
+  exists s2, r. split; [assumption|]. split; [assumption|]. cbn zeta. split; [|split; [|assumption]].
+  - intros d. rewrite Hb, !bal_move, Hb2, !Nat.eqb_refl.
+    destruct (Nat.eqb_spec a (hacc e)); [contradiction|]. destruct (Nat.eqb_spec (hacc e) a); [congruence|]. lia.
+  - intros d Hr Hc. destruct (capped_le e c (amt r) d Hr); lia.
+Qed.
+
+Lemma of_list_nonneg l : clist_valid l = true -> forall d, 0 <= of_list l d.
+Proof.
+  unfold clist_valid. generalize (@None nat). induction l as [|[d0 x] l IH]; intros lo H d; cbn in *; [unfold czero; lia|].
+  apply andb_prop in H. destruct H as [H1 H2]. apply andb_prop in H1. destruct H1 as [H1 _].
+  apply Z.ltb_lt in H1. destruct (Nat.eqb d d0); [lia|]. eapply IH; eauto.
+Qed.
+
+Lemma res_ok_elim {A} (r : res A) (P : A -> Prop) :
+  match r with Ok a _ => P a | _ => False end -> exists a, r = Ok a tt /\ P a.
+Proof. destruct r as [a []| |]; [eauto|tauto|tauto]. Qed.
